@@ -220,6 +220,28 @@ def rule_bind_callsig(check, rule):
         elif yes == set(['VP']):
             ok = len(sets) == 1 and sp.status == 'break'
             msg = '*args takes this and every remaining positional argument'
+            # CPython always hands *args over as a tuple: the stored value must be built as one, not be a piece of the
+            # caller's own sequence (which may be a list)
+            for x in sets:
+                v = x.args[1]
+
+                def _is_tuple(t):
+                    if t[0] == 'T':
+                        return True
+                    if t[0] == 'C' and t[1] == 'tuple':
+                        return True
+                    if t[0] == 'B' and t[1] == 'Add':
+                        return _is_tuple(t[2]) and _is_tuple(t[3])
+                    return False
+                kt = 'bind_callsig|varargs-tuple'
+                if _is_tuple(v):
+                    check.holds(rule, site_of(fi, x.node), 'the value bound to *args is built as a tuple', key=kt)
+                elif v[0] in ('SL', 'S') and v[1][0] == 'P':
+                    check.violation(rule, site_of(fi, x.node), 'the value bound to *args is %s, a piece of the caller\'s own sequence: for a list of '
+                                    'arguments the mapping holds a list where CPython (and the function built by f) bind a tuple' % show(v)[:40],
+                                    key=kt, witness="bind_callsig(s('a, *args'), [1, 2, 3], {})['args'] == (2, 3)")
+                else:
+                    check.inconclusive(rule, site_of(fi, x.node), 'value bound to *args not understood: %s' % show(v)[:60], key=kt)
         else:
             ok = sp.status == 'raise' and str(exc) == 'TypeError'
             msg = 'a positional argument meeting a keyword-only/**kwargs parameter -> TypeError'
@@ -345,3 +367,45 @@ def rule_bind_callsig(check, rule):
             check.violation(rule, st, 'bind_callsig has no path for the row "%s": such calls are now accepted/handled differently from CPython' % what,
                             key=prefix + '|missing', witness='bind_callsig must accept exactly the calls CPython accepts')
     check.floor(rule, 'rows of the bind_callsig table', n, 10)
+
+
+def rule_future_flags(check, rule):
+    """C20.R4: make_func combines the compiler flags of the requested __future__ features idempotently (bitwise or).
+    Arithmetic addition counts a feature named twice twice, producing a different flag word."""
+    repo = check.repo
+    fi = repo.func(SUP + ':make_func', required=False)
+    if fi is None:
+        raise Inconclusive('support.make_func vanished')
+    check.analysed(fi)
+    st = site_of(fi, fi.node)
+    uses = [n for n in ast.walk(fi.node) if isinstance(n, ast.Attribute) and n.attr == 'compiler_flag']
+    key = 'make_func|flags'
+    if not uses:
+        check.inconclusive(rule, st, 'make_func no longer reads compiler_flag', key=key)
+        return
+    for u in uses:
+        t = u
+        how = None
+        while t is not None and t is not fi.node:
+            par = getattr(t, '_parent', None)
+            if isinstance(par, ast.AugAssign) and t is par.value:
+                how = type(par.op).__name__
+                break
+            if isinstance(par, ast.BinOp):
+                how = type(par.op).__name__
+                break
+            if isinstance(par, ast.Call) and isinstance(par.func, ast.Name) and par.func.id == 'sum':
+                how = 'sum'
+                break
+            if isinstance(par, ast.Call) and norm(par.func) in ('functools.reduce', 'reduce') and par.args and norm(par.args[0]).endswith('or_'):
+                how = 'BitOr'
+                break
+            t = par
+        if how == 'BitOr':
+            check.holds(rule, site_of(fi, u), 'feature flags are combined with bitwise or (naming a feature twice changes nothing)', key=key)
+        elif how in ('Add', 'sum'):
+            check.violation(rule, site_of(fi, u), 'feature flags are added arithmetically (%s): a feature named twice is counted twice and a different '
+                            'flag word reaches compile()' % how, key=key,
+                            witness="f('a: int', future_features=('annotations', 'annotations'))")
+        else:
+            check.inconclusive(rule, site_of(fi, u), 'combination of compiler flags not recognised (%s)' % how, key=key)
